@@ -273,7 +273,88 @@ func c01Specs(tier string) []*h.SeqSpec {
 	return specs
 }
 
+// c01Scenarios: requests racing on upload sessions; at quiescence everything served or stored hashes to its digest.
+func c01Scenarios(tier string) []*h.Scenario {
+	var digests []string
+	for _, c := range c01Contents() {
+		for _, a := range []string{"sha256", "sha512", "sha384"} {
+			digests = append(digests, dg(a, []byte(c)))
+		}
+	}
+	type sess struct{ path, state string }
+	open := func(w *h.World, slot, chunk string) {
+		r := w.Do(h.Req{Method: "POST", Path: "/v2/a/blobs/uploads/"})
+		p, st := parseLocation(r.H.Get("Location"))
+		if chunk != "" {
+			r = w.Do(h.Req{Method: "PATCH", Path: p, Query: "state=" + st, Body: []byte(chunk)})
+			_, st = parseLocation(r.H.Get("Location"))
+		}
+		w.M.(map[string]sess)[slot] = sess{p, st}
+	}
+	put := func(slot, last, alg, content string) h.Step {
+		return h.Step{Name: fmt.Sprintf("PUT %s last=%q digest=%s(%q)", slot, last, alg, content), Do: func(w *h.World) string {
+			s := w.M.(map[string]sess)[slot]
+			r := w.DoNoQuiesce(h.Req{Method: "PUT", Path: s.path, Query: "state=" + s.state + "&digest=" + url.QueryEscape(dg(alg, []byte(content))), Body: []byte(last)})
+			return fmt.Sprint(r.Status)
+		}}
+	}
+	patch := func(slot, chunk string) h.Step {
+		return h.Step{Name: fmt.Sprintf("PATCH %s %q", slot, chunk), Do: func(w *h.World) string {
+			s := w.M.(map[string]sess)[slot]
+			r := w.DoNoQuiesce(h.Req{Method: "PATCH", Path: s.path, Query: "state=" + s.state, Body: []byte(chunk)})
+			return fmt.Sprint(r.Status)
+		}}
+	}
+	bound := 2
+	if tier == "thorough" {
+		bound = 3
+	}
+	var out []*h.Scenario
+	for _, store := range []string{"mem", "dir"} {
+		store := store
+		add := func(name string, prefix func(w *h.World), threads [][]h.Step) {
+			out = append(out, &h.Scenario{
+				Name:           "c01-" + store + "-" + name,
+				Conf:           &h.Conf{Name: store, Store: store},
+				Prefix:         func(w *h.World) { w.M = map[string]sess{}; prefix(w) },
+				Threads:        threads,
+				Bound:          bound,
+				IgnoreDeadlock: true,
+				Final:          func(w *h.World) string { return "" },
+				Extra: func(w *h.World, res [][]string, final string) []h.Violation {
+					return c01HashInvariant(w, []string{"a"}, digests, nil)
+				},
+			})
+		}
+		add("completion-with-algorithm-switch-vs-chunk-on-the-same-session", func(w *h.World) { open(w, "s1", "x") },
+			[][]h.Step{{put("s1", "", "sha512", "x")}, {patch("s1", "y")}})
+		add("completion-vs-chunk-on-the-same-session", func(w *h.World) { open(w, "s1", "x") },
+			[][]h.Step{{put("s1", "", "sha256", "x")}, {patch("s1", "y")}})
+		add("two-sessions-completing-to-the-same-digest", func(w *h.World) { open(w, "s1", "x"); open(w, "s2", "x") },
+			[][]h.Step{{put("s1", "", "sha256", "x")}, {put("s2", "", "sha256", "x")}})
+		if tier == "thorough" {
+			add("two-sessions-different-content-one-reader", func(w *h.World) { open(w, "s1", "x"); open(w, "s2", "y") },
+				[][]h.Step{{put("s1", "y", "sha256", "xy")}, {put("s2", "x", "sha512", "yx")}, {h.Step{Name: "GET sha256(xy)", Do: func(w *h.World) string {
+					d := dg("sha256", []byte("xy"))
+					r := w.DoNoQuiesce(h.Req{Method: "GET", Path: "/v2/a/blobs/" + d})
+					if r.Status == 200 && !digestMatches(d, r.Body) {
+						return "200 WRONG BYTES " + string(r.Body)
+					}
+					return fmt.Sprint(r.Status)
+				}}}})
+		}
+	}
+	return out
+}
+
 func init() {
+	h.RegisterSched(&h.SchedCheck{ID: "C01sched", Level: "model_checking", Scenarios: c01Scenarios, Budget: func(tier string) time.Duration {
+		if tier == "thorough" {
+			return 5 * time.Minute
+		}
+		return 45 * time.Second
+	}})
+	delete(h.Checks, "C01sched")
 	h.RegisterSeq(&h.SeqCheck{
 		ID:    "C01",
 		Level: "model_checking",
@@ -283,9 +364,18 @@ func init() {
 		Specs:  c01Specs,
 		Budget: func(tier string) time.Duration {
 			if tier == "thorough" {
-				return 12 * time.Minute
+				return 10 * time.Minute
 			}
-			return 110 * time.Second
+			return 70 * time.Second
 		},
 	})
+	h.Checks["C01"] = func(tier string) int {
+		c := h.SeqChecks["C01"]
+		rep := h.NewReport("C01", tier, c.Level)
+		rep.Rule = c.Rule + "; plus 4 scenarios per store explored over all interleavings up to the preemption bound (a completion with and without an algorithm switch racing with a chunk on the same session, two sessions completing to the same digest, two completions racing with a reader): the same hash invariant at quiescence and on every racing read"
+		rep.Assume = c.Assume
+		h.RunSeqInto(rep, "C01", tier, time.Time{})
+		h.RunSchedInto(rep, "C01sched", tier)
+		return rep.Emit()
+	}
 }
